@@ -34,8 +34,8 @@ PROPS = {
     },
     'C03': {
         'streams': [S('C03', 1500, 30000)],
-        'explanation': 'theorems (whole engine, Proofs/EngineNI.v): for any two errors that differ only in the CONTENT of unsafe strings (every unsafe position of the model, hidden errors included; same line shape), Redact() of the %v/%s and of the %+v rendering is the same; the needed refinement of "shape" (lines of 0/1/2+ bytes for strings the engine writes itself) is witnessed: a one-bit-per-line length side channel, not content; theorems (Proofs/DetailsNI.v): GetSafeDetails / GetAllSafeDetails, the whole Sentry report record and the reportable part (type names + reportable payload) of every node of the wire encoding are equal for two such errors (C03_safe_details, C03_report, C03_wire_reportable); the two positions where an encoder declares reportable what the formatter prints as an unsafe argument (HTTP status code, foreign errno text) are witnessed. Correspondence on hostile strings: redactable %v/%+v, safe details, wire message, Sentry report of model vs implementation, local / knowing hops / unknowing hop; Go relation: no unsafe token in any PII-free output',
-        'not_yet_proved': ['a syntactic input condition implying the sh_ok / glue hypotheses for ueq-related PAIRS (for single errors built by the API: C06_api_short / C06_api_verbose)'],
+        'explanation': 'theorems (whole engine, Proofs/EngineNI.v): for any two errors that differ only in the CONTENT of unsafe strings (every unsafe position of the model, hidden errors included; same line shape), Redact() of the %v/%s and of the %+v rendering is the same; the needed refinement of "shape" (lines of 0/1/2+ bytes for strings the engine writes itself) is witnessed: a one-bit-per-line length side channel, not content; theorems (Proofs/DetailsNI.v): GetSafeDetails / GetAllSafeDetails, the whole Sentry report record and the reportable part (type names + reportable payload) of every node of the wire encoding are equal for two such errors (C03_safe_details, C03_report, C03_wire_reportable); the two positions where an encoder declares reportable what the formatter prints as an unsafe argument (HTTP status code, foreign errno text) are witnessed; theorems (Proofs/ApiNI.v), on the INPUT of the public API: two constructor expressions related by req (same constructors, safe inputs equal, unsafe inputs arbitrary with the same line shape) build errors with the same redacted %v / %s for arbitrary bytes (C03_api_short) and the same redacted %+v, safe details, report and reportable wire payload under strs_ok / stacks_ok (C03_api_outputs); every exclusion of the fragment and every extra clause of req is witnessed. Correspondence on hostile strings: redactable %v/%+v, safe details, wire message, Sentry report of model vs implementation, local / knowing hops / unknowing hop; Go relation: no unsafe token in any PII-free output',
+        'not_yet_proved': ['pairs of constructor expressions outside the fragment ni_frag (transfers, stdlib Join, full-message user wrappers, error arguments that are not last in a message format): decided by the correspondence and the Go relation'],
         'assumptions': [ASSUME_UNIVERSE],
     },
     'C04': {
@@ -46,8 +46,8 @@ PROPS = {
     },
     'C06': {
         'streams': [S('C06', 1500, 30000), S('C06R', 900, 20000)],
-        'explanation': 'theorems (whole engine, Proofs/EngineWf.v): the redactable %v/%s rendering of EVERY error (all kinds, any depth, arbitrary bytes everywhere) is well-formed and balanced on every line when the redactable strings stored in the visited nodes are; %+v likewise under the decidable entry-glue condition; C06_engine_refuted_*: the conditions fail for errors built by the public API from strings with a truncated marker prefix at a line end -- the recorded finding marker-assembled-from-truncated-utf8, confirmed on the code; theorems (Proofs/ApiWf.v): from the INPUT of the public API -- for every constructor expression (all forms, transfers through arbitrary processes included) whose message strings have no truncated marker prefix before a newline / colon / E2 or at their end (decidable strs_ok; hints, details, links, keys, domains, tags, safe details unconstrained) both renderings are well-formed on every line (C06_api_short, C06_api_verbose), with no string condition when error arguments come last (C06_api_short_lastarg); the condition is witnessed necessary. Correspondence: redactable renderings byte-equal model vs implementation on hostile strings (local, decoded, opaque) and on regular strings with the plain renderings; Go relation: markers balanced / not nested / balanced per line; strip = plain; unsupported verbs refused',
-        'not_yet_proved': ['congruence (strip = plain) beyond ASCII arguments; error arguments printed with %+v inside message formats (outside in_fragment; no counter-example found by evaluation)'],
+        'explanation': 'theorems (whole engine, Proofs/EngineWf.v): the redactable %v/%s rendering of EVERY error (all kinds, any depth, arbitrary bytes everywhere) is well-formed and balanced on every line when the redactable strings stored in the visited nodes are; %+v likewise under the decidable entry-glue condition; C06_engine_refuted_*: the conditions fail for errors built by the public API from strings with a truncated marker prefix at a line end -- the recorded finding marker-assembled-from-truncated-utf8, confirmed on the code; theorems (Proofs/ApiWf.v): from the INPUT of the public API -- for every constructor expression (all forms, transfers through arbitrary processes included) whose message strings have no truncated marker prefix before a newline / colon / E2 or at their end (decidable strs_ok; hints, details, links, keys, domains, tags, safe details unconstrained) both renderings are well-formed on every line (C06_api_short, C06_api_verbose), with no string condition when error arguments come last (C06_api_short_lastarg); the condition is witnessed necessary; C06_api_all (Proofs/ApiWfPlus.v): the same for every constructor expression, %+v error arguments in message formats included, under the strengthened string condition (strs_ok-prime in the Coq text) and tidy frame names. Correspondence: redactable renderings byte-equal model vs implementation on hostile strings (local, decoded, opaque) and on regular strings with the plain renderings; Go relation: markers balanced / not nested / balanced per line; strip = plain; unsupported verbs refused',
+        'not_yet_proved': ['congruence (strip = plain) beyond ASCII arguments; C06_api_all under the weaker string / stack conditions of C06_api_verbose (no witness shows the strengthening necessary)'],
         'assumptions': [ASSUME_UNIVERSE],
     },
     'C07': {
